@@ -72,7 +72,9 @@ TEXT = {
                  "wire is additionally mutated (seeded) through all 36 byte-level entry points; TLC-enumerated nesting recipes over 13 recursive "
                  "grammar positions (MC_Nesting; bytes bound to the spec for small repetition counts) are materialised up to 4096/65536 levels and "
                  "decoded in a child process on the default 8 MiB stack; all strings of length <= 2, the repository's test vectors, their "
-                 "mutations and random strings go through every entry point with all follow-ups. Exploration is the honest level: 'never "
+                 "mutations and random strings go through every entry point with all follow-ups; so does every wire (accepted or not) of the five "
+                 "decode instances and every byte string of MC_Parse (exhaustive over a 46-byte alphabet to length 2/3, a 16-byte alphabet "
+                 "to length 3/4); the fuzz job runs in both configurations of the crate (with and without its std feature). Exploration is the honest level: 'never "
                  "crashes on any byte string' is not decidable by a bounded model; the resource clause (time/stack) is observed, not modelled.",
         "note": TRUST + " Stack use is observed on one platform (release build, overflow-checks on). Known finding F1 is matched by recipe tag AND failure mode.",
         "technique": "TLA+ lifecycle machine (decoders total, documented panics) model-checked by TLC; behaviours + TLC-enumerated nesting recipes + seeded mutation fuzzing replayed on the crate (child process for deep inputs)"},
@@ -113,7 +115,10 @@ TEXT = {
                  "hand-made wires for everything re-encoding changes (bignum integers in key and value position, indefinite lengths, "
                  "4-element recipient with empty list, reordered key_ops, f16/f32/f64/NaN, two-byte simple values, nested indefinite chunks); "
                  "the Design with ciborium's behaviour modelled reproduces finding F7 (invariant InvF7) and satisfies the property everywhere "
-                 "else. The crate runs the same relational check on those wires and on every accepted wire of five decode instances.",
+                 "else. The crate runs the same relational check on those wires and on every accepted wire of five decode instances, on every "
+                 "complete item among the exhaustive short byte strings of MC_Parse, and on ALL 65536 binary16 patterns plus boundary "
+                 "binary32/binary64 patterns (MC_Float: the specification's arithmetic widening / shortest-form model, bound to ciborium "
+                 "pattern by pattern) inside Value, Timestamp, ClaimsSet, Header and CoseKey.",
         "note": TRUST + " Purely relational on the crate's own outputs (no expected field values), so a symmetric encoder/decoder slip is not reported here.",
         "technique": MC + " (spec/mc/MC_FixedPoint.tla); relational fixed-point check on the crate over spec-generated wires"},
     "C11": {
@@ -127,7 +132,9 @@ TEXT = {
         "level": "TLC checks on accepted items x 4 encodings: every proper prefix rejected, every suffix of a 7-element suffix set gives "
                  "ExtraneousData, Parse is prefix-free, and the same for the header map inside a protected bstr. The crate is run on every cut "
                  "point and suffix of those wires and of every accepted wire of five decode instances, plus byte-API vs Value-API agreement in "
-                 "both directions.",
+                 "both directions. MC_Parse adds every short byte string (exhaustive, see C01) decoded as 21 types: DecodeFailed iff no item "
+                 "parses, ExtraneousData iff an item parses and bytes remain, otherwise the conversion of the parsed item; the parser model "
+                 "itself is compared with ciborium on each string (value, bytes consumed, class of failure).",
         "note": TRUST, "technique": MC + " (spec/mc/MC_OneItem.tla); prefix/suffix/API-agreement sweep on the crate"},
     "C19": {
         "level": "TLC explores every builder as a state machine whose state is the call history (all sequences up to 2/3 calls over the "
